@@ -121,6 +121,18 @@ Theorem C02_private_extension_unique :
 Proof. exact private_extension_unique. Qed.
 Print Assumptions C02_private_extension_unique.
 
+(* ... and such a private extension exists for every interpretation of the non-private predicates:
+   together, the private predicates of a program without private recursion are DEFINED by the
+   non-private ones (exactly one supported extension). *)
+Theorem C02_private_extension_exists :
+  forall (P : program) (priv : list pred) (N : pint),
+    has_private_recursion P priv = false ->
+    exists M : pint,
+      (forall p d, ~ In (mkpred p (List.length d)) priv -> (M p d <-> N p d)) /\
+      priv_supported M P priv.
+Proof. exact private_extension_exists. Qed.
+Print Assumptions C02_private_extension_exists.
+
 (* every model of completion(tau*(P)) is supported on the private predicates ... *)
 Theorem C02_completion_priv_supported :
   forall (FI : fint) (P : program) (G D : theory) (ins priv : list pred) (M : pint),
